@@ -72,6 +72,7 @@ PROPS["C14"] = {
                   "activeTCPConn; truncated, garbage and huge-length streams are compared with a reference deframer; every call is panic-guarded; the conn records the "
                   "largest and out-of-segment read requests. "
                   "Part (H): TCPMuxDefault.handleConn is fed a re-chunked stream (first STUN frame + packets; a third with the first frame coalesced with what follows; hostile first frames): the packet conn of that ufrag must deliver the first message and every following packet in order. "
+                  "A third of the tcpPacketConn and handleConn streams have late-arrival offsets: a reader with a read deadline armed gets one timeout error there (as on a real socket), one without notices nothing. "
                   "One loopback session in forty stalls for 1.25 s (thorough: up to 3.5 s) in the middle of a frame towards activeTCPConn.",
     "level_note": "Sampled packet lists and partitions (not all partitions of all streams). The loopback part depends on kernel TCP; a stalled loopback session is counted inconclusive, never a violation - "
                   "except when the state of the stream decides: the peer has sent a well-formed stream completely and still holds the connection open, nothing is unsent or unread on either socket (TIOCOUTQ/TIOCINQ) "
